@@ -42,6 +42,7 @@ type Model struct {
 	axioms  []*Term
 	typeTag map[string]int // interface dynamic type tags
 	specMode bool          // slices are pure sequences (spec function bodies)
+	noIx     bool          // plain off+i element indices (no ix function)
 }
 
 type structDT struct {
@@ -709,6 +710,23 @@ func (m *Model) IxSub(a, b *Term) *Term {
 	}
 	return m.tb.Sub(a, b)
 }
+// ElemIx is the absolute index off+i of element i of a slice/sequence starting
+// at off. It is an uninterpreted function with the defining axiom
+// ix(o,i) = o+i, so that quantified facts about "element i" have a pattern
+// that matches every element access syntactically (including i == 0).
+func (m *Model) ElemIx(off, i *Term) *Term {
+	if m.noIx {
+		return m.IxAdd(off, i)
+	}
+	ix := m.ixSort()
+	if _, ok := m.ufuncs["ix"]; !ok {
+		m.UF("ix", ix, ix, ix)
+		o := m.tb.BoundVar("o", ix)
+		k := m.tb.BoundVar("k", ix)
+		m.addAxiom(m.tb.Forall([]*Term{o, k}, m.tb.Eq(m.tb.App("ix", ix, o, k), m.IxAdd(o, k))))
+	}
+	return m.tb.App("ix", ix, off, i)
+}
 func (m *Model) IxLe(a, b *Term) *Term { return m.Compare(token.LEQ, a, b, tInt) }
 func (m *Model) IxLt(a, b *Term) *Term { return m.Compare(token.LSS, a, b, tInt) }
 
@@ -761,7 +779,7 @@ func (m *Model) MkSeq(sort Sort, arr, off, ln *Term) *Term {
 	return m.tb.App("mk_"+sort, sort, arr, off, ln)
 }
 func (m *Model) SeqAt(q, i *Term) *Term {
-	return m.tb.Select(m.SeqArr(q), m.IxAdd(m.SeqOff(q), i))
+	return m.tb.Select(m.SeqArr(q), m.ElemIx(m.SeqOff(q), i))
 }
 func (m *Model) SeqWF(q *Term) *Term {
 	z := m.IxConst(0)
@@ -809,7 +827,9 @@ func (m *Model) NilIface() *Term { return m.tb.App("mkiface", SIface, m.tb.Int(0
 func (m *Model) IfaceTag(x *Term) *Term { return m.proj("i_tag", SInt, x, 0) }
 func (m *Model) IfaceVal(x *Term) *Term { return m.proj("i_val", SInt, x, 1) }
 func (m *Model) TypeTag(t types.Type) *Term {
-	k := types.TypeString(t, nil)
+	return m.TypeTagByName(types.TypeString(t, nil))
+}
+func (m *Model) TypeTagByName(k string) *Term {
 	id, ok := m.typeTag[k]
 	if !ok {
 		id = len(m.typeTag) + 1
